@@ -32,13 +32,32 @@ type letter struct {
 	VCmd     string
 	Target   string
 	Power    int64
-	Addr     string // account the request is bound to (ValidatorAttr.Addr); also the forged sender bytes of a direct call
-	Delta    int    // nonce offset relative to Addr's account nonce
+	Addr     string // account the request is bound to (ValidatorAttr.Addr); also the forged sender bytes of a direct call; "" = the signed request names NO account (empty addr)
+	NonceOf  string // account whose nonce the client puts into the request (default: Addr)
+	Delta    int    // nonce offset relative to that account's nonce
 	Signers  []string
 	WrongMsg bool   // signatures are over a different message
 	SelfSign string // "ok" | "bad" | "" (only add_peer carries one)
 	Core     bool   // member of the core alphabet (21 letters)
 	Mini     bool   // member of the mini alphabet (10 letters; quick tier, length 3)
+	Blk      bool   // member of the block alphabet (several accepted requests in ONE block: same-state requests, second administrator)
+	Unb      bool   // member of the unbound alphabet (requests whose signed attributes name no account, and their literal replays by other accounts)
+}
+
+// blkLetters: every request is properly authorised at the start of the block;
+// the alphabet holds, for one key, a change, the SAME change asked again (by
+// the same and by a second administrator: a request for the state the key has
+// by then), a different change, and changes of other keys (add, update, remove).
+var blkLetters = map[string]bool{
+	"upd(B,5)": true, "Y:upd(B,5)": true, "upd(B,1)": true, "add(K,0)": true, "Y:add(K,0)": true, "upd(D,1)": true, "rm(A)": true,
+}
+
+// unbLetters: a request signed by all validators whose attributes carry an
+// empty addr, proper (bound) changes by X and Y, and literal replays by the
+// first submitter, by Y and by a third account Z, through both channels.
+var unbLetters = map[string]bool{
+	"noaddr:upd(B,5)": true, "upd(B,5)": true, "upd(B,1)": true, "Y:upd(B,1)": true,
+	"replay#1": true, "Y:replay#1": true, "Z:replay#1": true, "Z~:replay#1": true, "Z:replay#2": true,
 }
 
 var miniLetters = map[string]bool{
@@ -74,6 +93,7 @@ func buildAlphabet() []letter {
 		if l.Mini && !l.Core {
 			panic("mini letter outside the core alphabet: " + l.Name)
 		}
+		l.Blk, l.Unb = blkLetters[l.Name], unbLetters[l.Name]
 		ls = append(ls, l)
 	}
 	// properly authorised requests of account X (as long as A,B,C hold > 2/3)
@@ -95,10 +115,16 @@ func buildAlphabet() []letter {
 	bt.CmdType = "changeSomethingElse"
 	add(bt)
 	// the same kind of request from a second administrator account Y
-	for _, l := range []letter{eff("Y:upd(B,1)", cUpd, "B", 1, true), eff("Y:add(B,0)", cAdd, "B", 0, true), eff("Y:rm(B)", cRm, "B", 0, true)} {
+	for _, l := range []letter{eff("Y:upd(B,1)", cUpd, "B", 1, true), eff("Y:add(B,0)", cAdd, "B", 0, true), eff("Y:rm(B)", cRm, "B", 0, true),
+		eff("Y:upd(B,5)", cUpd, "B", 5, false), eff("Y:add(K,0)", cAdd, "K", 0, false)} {
 		l.Sender, l.Addr = "Y", "Y"
 		add(l)
 	}
+	// a request whose signed attributes name NO account (empty addr): bound to nobody, it carries
+	// the nonce the submitting client read from its own account
+	na := eff("noaddr:upd(B,5)", cUpd, "B", 5, false)
+	na.Addr, na.NonceOf = "", "X"
+	add(na)
 	// wrong nonce
 	for _, d := range []int{-1, +1} {
 		for _, b := range []letter{eff("upd(B,5)", cUpd, "B", 5, true), eff("rm(B)", cRm, "B", 0, d == -1)} {
@@ -156,6 +182,9 @@ func buildAlphabet() []letter {
 	add(letter{Name: "Y:replay#1", Sender: "Y", Chan: "contract", Replay: 1, Core: false})
 	add(letter{Name: "Y~:replay#1", Sender: "Y", Chan: "direct", Replay: 1, Core: true})
 	add(letter{Name: "Y~:replay#2", Sender: "Y", Chan: "direct", Replay: 2, Core: false})
+	add(letter{Name: "Z:replay#1", Sender: "Z", Chan: "contract", Replay: 1, Core: false})
+	add(letter{Name: "Z~:replay#1", Sender: "Z", Chan: "direct", Replay: 1, Core: false})
+	add(letter{Name: "Z:replay#2", Sender: "Z", Chan: "contract", Replay: 2, Core: false})
 	return ls
 }
 
@@ -195,8 +224,15 @@ type payload struct {
 }
 
 func (l *letter) concretise(nonces map[string]uint64) *payload {
-	n := nonces[l.Addr] + uint64(int64(l.Delta)) // wraps for −1 at nonce 0
-	addr := acct(l.Addr).addr.Bytes()
+	of := l.NonceOf
+	if of == "" {
+		of = l.Addr
+	}
+	n := nonces[of] + uint64(int64(l.Delta)) // wraps for −1 at nonce 0
+	var addr []byte // stays empty for a request that names no account
+	if l.Addr != "" {
+		addr = acct(l.Addr).addr.Bytes()
+	}
 	msg := attrMsg(l.VCmd, nk(l.Target).pub, l.Power, addr, n)
 	signed := msg
 	if l.WrongMsg {
@@ -219,7 +255,11 @@ func (l *letter) concretise(nonces map[string]uint64) *payload {
 		self = nodeSign(l.Target, append([]byte("x"), msg...))
 	}
 	p.Tagged = tagged(opData(l.CmdType, msg, self, si))
-	p.Describe = fmt.Sprintf("%s %s power=%d bound to %s nonce %d, entries %v", l.VCmd, l.Target, l.Power, l.Addr, n, l.Signers)
+	bound := l.Addr
+	if bound == "" {
+		bound = "NO account (empty addr)"
+	}
+	p.Describe = fmt.Sprintf("%s %s power=%d bound to %s nonce %d, entries %v", l.VCmd, l.Target, l.Power, bound, n, l.Signers)
 	if l.WrongMsg {
 		p.Describe += " (signed over another message)"
 	}
@@ -261,8 +301,9 @@ type seqResult struct {
 // reference model ------------------------------------------------------------
 
 type refModel struct {
-	set   map[string]int64 // validator set of the current height
-	nonce map[string]uint64
+	set      map[string]int64 // validator set of the current height
+	nonce    map[string]uint64
+	accepted map[string]bool // literal payloads the implementation has accepted so far
 }
 
 func (m *refModel) total() (t int64) {
@@ -274,15 +315,21 @@ func (m *refModel) total() (t int64) {
 
 // authorised: the property's conditions for a request submitted by `sender`
 // whose account nonce (before this transaction) is m.nonce[sender].
-func (m *refModel) authorised(sender string, p *payload) (bool, string) {
-	if p.Addr != sender {
-		return false, "sender-not-the-bound-account"
+//
+// A request whose signed attributes name no account (p.Addr == "") is bound to
+// nobody: the property neither obliges a node to honour it nor forbids it when
+// the submitter's nonce and the signatures are right (verdict "either": the
+// model follows the implementation) — but once it has been accepted, the same
+// literal bytes submitted again (by whichever account) are a replay.
+func (m *refModel) authorised(sender string, p *payload) (auth bool, reason string, either bool) {
+	if p.Addr != "" && p.Addr != sender {
+		return false, "sender-not-the-bound-account", false
 	}
 	if p.Nonce != m.nonce[sender] {
 		if p.Nonce < m.nonce[sender] {
-			return false, "stale-nonce"
+			return false, "stale-nonce", false
 		}
-		return false, "future-nonce"
+		return false, "future-nonce", false
 	}
 	distinct := map[string]bool{}
 	var tally, withDup int64
@@ -300,14 +347,17 @@ func (m *refModel) authorised(sender string, p *payload) (bool, string) {
 	if !moreThanTwoThirds(tally, m.total()) {
 		switch {
 		case moreThanTwoThirds(withDup, m.total()):
-			return false, "duplicate-signer-counted-repeatedly"
+			return false, "duplicate-signer-counted-repeatedly", false
 		case len(p.Genuine) == 0 && len(p.Entries) > 0:
-			return false, "signature-over-other-message-counted"
+			return false, "signature-over-other-message-counted", false
 		default:
-			return false, "insufficient-signatures-accepted"
+			return false, "insufficient-signatures-accepted", false
 		}
 	}
-	return true, ""
+	if p.Addr == "" {
+		return false, "request-bound-to-no-account", true
+	}
+	return true, "", false
 }
 
 func copySet(s map[string]int64) map[string]int64 {
@@ -371,7 +421,7 @@ func runSequence(kase seqCase) seqResult {
 	for i, mode := range kase.Replicas {
 		reps[i] = newReplica(fmt.Sprintf("r%d", i+1), mode, g)
 	}
-	m := &refModel{set: map[string]int64{}, nonce: map[string]uint64{}}
+	m := &refModel{set: map[string]int64{}, nonce: map[string]uint64{}, accepted: map[string]bool{}}
 	for i, n := range g.Names {
 		m.set[n] = g.Powers[i]
 	}
@@ -408,6 +458,7 @@ func runSequence(kase seqCase) seqResult {
 		type verdict struct {
 			auth   bool
 			reason string
+			either bool
 		}
 		var verdicts []verdict
 		for k := 0; k < size; k++ {
@@ -430,10 +481,10 @@ func runSequence(kase seqCase) seqResult {
 			case "contract":
 				s.Raw = signTx(acct(l.Sender), s.EthNonc, adminTo(), contractCalldata(p.Tagged)).raw
 			case "direct":
-				s.Raw = signTx(acct(l.Sender), s.EthNonc, precompileAddr, directInput(common.BytesToAddress(acct(p.Addr).addr.Bytes()), p.Tagged)).raw
+				s.Raw = signTx(acct(l.Sender), s.EthNonc, precompileAddr, directInput(senderBytes(p, l.Sender), p.Tagged)).raw
 			}
-			a, why := m.authorised(l.Sender, p)
-			verdicts = append(verdicts, verdict{a, why})
+			a, why, either := m.authorised(l.Sender, p)
+			verdicts = append(verdicts, verdict{a, why, either})
 			m.nonce[l.Sender]++ // every transaction here is valid at the ethereum level and consumes the sender's nonce
 			subs = append(subs, s)
 			raws = append(raws, s.Raw)
@@ -480,7 +531,17 @@ func runSequence(kase seqCase) seqResult {
 				}
 				grew += c.Grew
 			}
+			if (verdicts[i].auth || verdicts[i].either) && m.accepted[string(s.P.Tagged)] {
+				// the same literal request was accepted before (in an earlier block or earlier in this one)
+				verdicts[i] = verdict{false, "replay-of-an-accepted-request", false}
+			}
+			if verdicts[i].either {
+				verdicts[i].auth = accepted // the model follows the implementation
+			}
 			v := verdicts[i]
+			if accepted {
+				m.accepted[string(s.P.Tagged)] = true
+			}
 			res.Classes = append(res.Classes, fmt.Sprintf("req/%s/%s/auth=%v(%s)/accepted=%v/recorded=%d", s.P.VCmd, s.Chan, v.auth, v.reason, accepted, grew))
 			if !accepted && (changed || grew != 0) {
 				return viol(map[string]string{"site": "AdminOp.ExecTX", "kind": "rejected-request-recorded-a-change"}, "a REJECTED request altered ChangedValidators.\n%s", describe())
@@ -561,11 +622,28 @@ func runSequence(kase seqCase) seqResult {
 		if dupMember || !o1.Sorted {
 			return viol(map[string]string{"site": "AdminOp.updateValidators", "kind": "set-not-sorted-or-has-duplicates"}, "validator set after height %d: %v\n%s", bi+1, o1.Set, describe())
 		}
+		if o1.Last != nil {
+			gotLast := map[string]int64{}
+			for _, mm := range o1.Last {
+				gotLast[mm.Key] = mm.Power
+			}
+			if setMapString(gotLast) != setMapString(m.set) {
+				return viol(map[string]string{"site": "State.ExecBlock", "kind": "last-validators-not-the-set-in-force"}, "after height %d the replica records {%s} as the set that was in force at that height; it was {%s}\n%s", bi+1, setMapString(gotLast), setMapString(m.set), describe())
+			}
+		}
 		if o1.Pending != 0 {
 			return viol(map[string]string{"site": "AdminOp.EndBlock", "kind": "changes-left-pending-after-block"}, "%d entries left in ChangedValidators after the block\n%s", o1.Pending, describe())
 		}
 		if setMapString(got) != setMapString(next) {
-			if several {
+			// the known same-block defect (requests judged against the block-start set) can only
+			// explain differences on keys that several accepted requests of this block name
+			onlySeveral := true
+			for _, k := range diffKeys(got, next) {
+				if sameKey[k] < 2 {
+					onlySeveral = false
+				}
+			}
+			if several && onlySeveral {
 				viol(map[string]string{"site": "AdminOp.ProcessAdminOP", "kind": "same-block-requests-evaluated-against-stale-set", "ops": ops},
 					"several accepted requests on one key in one block: next set is {%s}, applying the accepted requests in order gives {%s}\n%s", setMapString(got), setMapString(next), describe())
 			} else {
@@ -573,7 +651,11 @@ func runSequence(kase seqCase) seqResult {
 				if len(sameKey) == 0 {
 					kind = "set-changed-without-accepted-request"
 				}
-				viol(map[string]string{"site": "AdminOp.updateValidators", "kind": kind}, "next set is {%s}, reference {%s}\n%s", setMapString(got), setMapString(next), describe())
+				sig := map[string]string{"site": "AdminOp.updateValidators", "kind": kind}
+				if several {
+					sig["shape"] = "key-named-once-in-a-block-with-a-key-named-several-times"
+				}
+				viol(sig, "next set is {%s}, reference {%s} (differing keys: %v)\n%s", setMapString(got), setMapString(next), diffKeys(got, next), describe())
 			}
 			next = got // resynchronise: later blocks are judged from what the replicas really hold
 		}
@@ -599,6 +681,16 @@ func runSequence(kase seqCase) seqResult {
 	return res
 }
 
+// senderBytes: the 20 "sender" bytes of a direct call to the precompile: the
+// account the request is bound to (forged when that is not the caller); for a
+// request bound to nobody, the caller's own address.
+func senderBytes(p *payload, sender string) common.Address {
+	if p.Addr == "" {
+		return common.BytesToAddress(acct(sender).addr.Bytes())
+	}
+	return common.BytesToAddress(acct(p.Addr).addr.Bytes())
+}
+
 // distinctSorted: the distinct commands, sorted, joined with "+".
 func distinctSorted(xs []string) string {
 	seen := map[string]bool{}
@@ -611,6 +703,23 @@ func distinctSorted(xs []string) string {
 	}
 	sort.Strings(o)
 	return strings.Join(o, "+")
+}
+
+// diffKeys: the keys on which two sets differ (membership or power), sorted.
+func diffKeys(a, b map[string]int64) []string {
+	var out []string
+	for k, v := range a {
+		if w, ok := b[k]; !ok || w != v {
+			out = append(out, k)
+		}
+	}
+	for k := range b {
+		if _, ok := a[k]; !ok {
+			out = append(out, k)
+		}
+	}
+	sort.Strings(out)
+	return out
 }
 
 func sumPowers(s map[string]int64) (t int64) {
@@ -633,6 +742,8 @@ func diffObs(a, b blockObs) string {
 		return fmt.Sprintf("membership/powers {%s} vs {%s}", setString(a.Set), setString(b.Set))
 	case a.Hash != b.Hash:
 		return fmt.Sprintf("ValidatorSet.Hash %s vs %s (same membership and powers)", a.Hash, b.Hash)
+	case setString(a.Last) != setString(b.Last):
+		return fmt.Sprintf("set recorded as in force at this height (LastValidators) {%s} vs {%s}", setString(a.Last), setString(b.Last))
 	case len(a.Txs) != len(b.Txs):
 		return fmt.Sprintf("%d vs %d transactions executed", len(a.Txs), len(b.Txs))
 	}
